@@ -9,6 +9,9 @@ CLAIMED = {
  "C20": ("history of with-block programs checked against a sequential stack model by monitors on the real __enter__/__exit__",
          "Runtime monitoring: every settings class's real __enter__/__exit__ is wrapped; after each event the visible value of every field of every setting is compared with a per-field stack model; programs enumerated exhaustively to depth 3 for same-class nestings and all ordered class pairs, with exceptions injected at block boundaries, plus random deep programs. Decides the executed programs only.",
          "Trusts the harness' snapshot of publicly visible values (on()/value()/value(dtype)/num_probe_vectors()); blocks constructed at entry.", "DESIGN.md §4 C20"),
+ "C01": ("post-condition monitor on the real ExactGP.__call__ against a dense float64 Gaussian-conditional oracle, with path witnesses",
+         "Runtime monitoring: the real ExactGP.__call__ is wrapped; every posterior call made by a generated workload (kernels x means x likelihoods x shapes x batch patterns x all 2^5 prediction-settings combinations + skip/fast_computations variants + Kronecker multitask) is compared (mean, covariance, variance, mean_cache, covar_cache, likelihood noise step) with the dense conditional built from the model's own prior pieces; counters on linear_cg / lanczos / cholesky / lazy evaluation show which paths ran. Decides executed cells only.",
+         "Trusts torch.linalg dense algebra; kernel/mean/likelihood values themselves are the model's own (C05/C12 check them); CG path compared at 1e-3 (linear_operator's CG accuracy floor), LOVE-on-Lanczos at 2e-2, direct paths at 1e-8.", "DESIGN.md §4 C01"),
 }
 NOT_YET = "check not built yet in this round (see DESIGN.md §9 build order); not claimed until its monitor exists and is silent on the unchanged tree"
 
